@@ -310,7 +310,7 @@ func (s *decScope) bounded(v ssa.Value, at *ssa.BasicBlock, depth int) (bool, st
 
 // nonNegative: v >= 0 at block `at`, by construction or by a dominating test.
 func (s *decScope) nonNegative(v ssa.Value, at *ssa.BasicBlock, depth int) (bool, string) {
-	if depth > 8 {
+	if depth > 14 {
 		return false, "too deep"
 	}
 	if p, ok := v.(*ssa.Parameter); ok {
@@ -366,7 +366,7 @@ func (s *decScope) nonNegative(v ssa.Value, at *ssa.BasicBlock, depth int) (bool
 				}
 				return all, "MinInt of values"
 			}
-			if callee.Blocks != nil && strings.HasPrefix(pkgPathOf(callee), repoMod) && depth < 4 && callee.Signature.Results().Len() >= 1 {
+			if callee.Blocks != nil && strings.HasPrefix(pkgPathOf(callee), repoMod) && depth < 10 && callee.Signature.Results().Len() >= 1 {
 				all, any := true, false
 				// bind the callee's parameters to this site's arguments
 				if s.paramBind == nil {
@@ -397,7 +397,7 @@ func (s *decScope) nonNegative(v ssa.Value, at *ssa.BasicBlock, depth int) (bool
 	case *ssa.Extract:
 		// (n, err) results of a repository function: same analysis on result #Index
 		if call, ok := x.Tuple.(*ssa.Call); ok {
-			if callee := call.Call.StaticCallee(); callee != nil && callee.Blocks != nil && strings.HasPrefix(pkgPathOf(callee), repoMod) && depth < 4 {
+			if callee := call.Call.StaticCallee(); callee != nil && callee.Blocks != nil && strings.HasPrefix(pkgPathOf(callee), repoMod) && depth < 10 {
 				all, any := true, false
 				for _, cb := range callee.Blocks {
 					if ret, ok := cb.Instrs[len(cb.Instrs)-1].(*ssa.Return); ok && len(ret.Results) > x.Index {
